@@ -28,8 +28,9 @@ D4): a journal `Sync` fails, the next write re-uses the sequence number, is ackn
 dropped by `decodeBatchToMem` at the next `Open`.
 
 Not proved (`fault_safe_full`): the same for the whole machine (faults in the flush, the manifest commit and
-rotation, and recovery).  The machine models these error paths, and random exploration of it (4 000 runs of
-150 steps with 18 % injected faults, `Scratch/Explore.lean` in the work area) finds no violation for the
+rotation, table compaction, transaction commit, and recovery).  The machine models these error paths, and
+random exploration of it (4 000 runs of 200 steps with 18 % injected faults, crash images checked after every
+step, `Scratch/Explore.lean` in the work area) finds no violation for the
 repaired configuration, but the invariant of `Proofs/Durable*.lean` is proved for fault-free steps only: with
 faults the journal holds failed groups that are not in the write buffer, which `RunOK.jcur`/`FrozenFacts`
 state as an equality.  Assumption made explicit in the model: a `SetMeta` that fails has had no effect
